@@ -10,6 +10,7 @@ from __future__ import annotations
 import asyncio
 import json
 import logging
+import sys
 from typing import Any, Callable
 
 from sim import clock as vclock
@@ -195,6 +196,7 @@ class Operator:
 class Sim:
     def __init__(self, seed: int = 0, wall_budget: int = 20) -> None:
         logging.disable(logging.CRITICAL)
+        sys.unraisablehook = lambda u: None      # coroutines of dropped loops are finalised by the collector: not news
         self.world = World(seed=seed, wall_budget=wall_budget)
         self.recorder = Recorder(lambda: self.world.now)
         self.rec = self.recorder.rec
